@@ -1,8 +1,12 @@
 #!/bin/bash
-# trymutant.sh <patch.diff> <prop> [budget] : apply a seeded change to /repo, run the quick check, undo.
+# trymutant.sh <patch.diff> <prop> [budget] : run the quick check of <prop> against /repo HEAD + patch.
+# The patch is applied in a scratch worktree of /repo (removed afterwards), so /repo itself and any
+# check running from it are not disturbed; evidence and replays of the run go to /tmp/mut-out, not /verif.
 P=$1; PROP=$2; B=${3:-40}
-cd /repo && git diff --quiet || { echo "repo dirty"; exit 2; }
-git -C /repo apply "$P" || { echo "patch does not apply"; exit 2; }
-cd /verif && bin/check $PROP --budget $B > /tmp/mut-$PROP.log 2>&1; rc=$?
-git -C /repo checkout -- .
+WT=$(mktemp -d /tmp/mut-wt-XXXXXX); rmdir $WT
+git -C /repo worktree add -q --detach $WT HEAD || { echo "cannot create worktree"; exit 2; }
+git -C $WT apply "$P" || { echo "patch does not apply"; git -C /repo worktree remove --force $WT; exit 2; }
+mkdir -p /tmp/mut-out
+cd /verif && VERIF_REPO=$WT VERIF_EVIDENCE_DIR=/tmp/mut-out VERIF_REPLAY_DIR=/tmp/mut-out bin/check $PROP --budget $B > /tmp/mut-$PROP.log 2>&1; rc=$?
+git -C /repo worktree remove --force $WT
 echo "exit=$rc"; grep -v "^	\|^github\|^goroutine\|^panic" /tmp/mut-$PROP.log | cut -c1-600 | tail -8
